@@ -89,6 +89,106 @@ def _sample1(args):
     return {"pid": pid, "args": argsV, "obsargs": gb.proj_args(p, one), "n": n, "cells": cells, "det": det}
 
 
+REGEN_PROGS = ["CChain", "CIndep", "CNest", "CDm", "CSc", "CScI"]
+DEPENDENT_ITER = {"CSc"}     # later iterations' parents are regenerated too: only the first selected address has parents fixed by the base trace
+
+
+def _regen(args):
+    """C07.prior: regenerate one selected leaf address of a fixed base trace under N keys; counts of its new value."""
+    catalog, pid, ai, n, seed = args
+    try:
+        import jax
+        import jax.numpy as jnp
+        import numpy as np
+        from . import gfi_build as gb
+        from genjax import Selection
+        from genjax._src.core.generative.requests import Regenerate
+        from genjax._src.core.compiler.interpreters.incremental import Diff
+        e = catalog[pid]
+        p = e["p"]
+        gf = gb.build(p)
+        argsV = e["as"][ai]
+        a = gb.call_args(p, argsV)
+        base = gf.simulate(jax.random.key(seed), a)
+        base_ch = gb.proj_chm(base.get_choices(), e["addrs"], decoys=False)
+        keys = jax.random.split(jax.random.key(seed + 1), n)
+        out = []
+        for path, _ in base_ch:
+            static = [c for c in path if not c.isdigit()]
+            if len(static) != len(path):
+                sel_paths = [q for q, _ in base_ch if [c for c in q if not c.isdigit()] == static]   # index levels are transparent
+            else:
+                sel_paths = [path]
+            if path != sel_paths[0]:
+                continue
+            sel = Selection.at[tuple(static) if len(static) > 1 else static[0]]
+
+            def f(k):
+                new, w, _, _ = Regenerate(sel).edit(k, base, Diff.no_change(a))
+                vals = []
+                for q in e["addrs"]:
+                    pp = gb.path_py(q)
+                    v = (new.get_choices()(*pp) if pp else new.get_choices()).get_value()
+                    vals.append(jnp.asarray(v, jnp.int32) if v is not None else jnp.array(-1, jnp.int32))
+                return jnp.stack(vals), w, new.get_score()
+            try:
+                vals, w, sc = jax.jit(jax.vmap(f))(keys)
+            except Exception as ex:
+                out.append({"kind": "regen", "pid": pid, "args": argsV, "error": type(ex).__name__, "addr": path})
+                continue
+            vals = np.asarray(vals)
+            col = {tuple(q): j for j, q in enumerate(e["addrs"])}
+            basev = {tuple(q): v for q, v in base_ch}
+            others = all(np.all(vals[:, col[q]] == v) for q, v in basev.items() if list(q) not in sel_paths)
+            wok = bool(np.allclose(np.asarray(w), np.asarray(sc) - float(base.get_score()), atol=1e-3))
+            for sp in (sel_paths[:1] if pid in DEPENDENT_ITER else sel_paths):
+                c = vals[:, col[tuple(sp)]]
+                out.append({"kind": "regen", "pid": pid, "args": argsV, "base": base_ch, "addr": sp, "n": n,
+                            "counts": [int(np.sum(c == v)) for v in range(3)], "others_unchanged": bool(others), "weight_ok": wok})
+        return out
+    except Exception as ex:
+        import traceback
+        return [{"kind": "regen", "pid": pid, "args": catalog[pid]["as"][ai], "error": type(ex).__name__, "msg": traceback.format_exc()[-800:], "addr": []}]
+
+
+def regen_prior(prop_id, rep, wd, catalog, tier, seed):
+    """run the C07.prior sampling clause and add its verdicts to rep"""
+    n = 4096 if tier == "quick" else 16384
+    jobs = [(catalog, pid, ai, n, (seed * 9176 + 31 * j + 5) % (2 ** 31)) for j, pid in enumerate(REGEN_PROGS)
+            for ai in range(min(2, len(catalog[pid]["as"])))]
+    os.environ.setdefault("XLA_FLAGS", "--xla_cpu_multi_thread_eigen=false intra_op_parallelism_threads=1")
+    import multiprocessing as mp
+    with mp.get_context("spawn").Pool(min(8, len(jobs))) as pool:
+        res = pool.map(_regen, jobs, chunksize=1)
+    evs = [ev for r in res for ev in r]
+    bound = math.ceil(math.sqrt(n * math.log(2 * 3 * max(1, len(evs)) / DELTA) / 2.0))
+    good = []
+    for ev in evs:
+        if "error" in ev:
+            rep.violation({"clause": f"{prop_id}.regen.run", "pid": ev["pid"], "error": ev["error"], "addr": ev["addr"]}, {"event": ev})
+            continue
+        ev["tid"] = len(good)
+        ev["bound"] = bound
+        good.append(ev)
+    path = os.path.join(wd, "regen_events.json")
+    vlib.write_json(path, good)
+    with open(os.path.join(wd, "sample.cfg"), "w") as f:
+        f.write("SPECIFICATION TSpec\nINVARIANT Report\nCHECK_DEADLOCK FALSE\n")
+    r = vlib.run_tlc("GFISample", os.path.join(wd, "sample.cfg"), wd, workers=1, env={"TRACE_FILE": path}, tag="regenprior", jvm=["-Xss64m"])
+    rep.add_tlc(r)
+    verdicts = list(r.payloads("VERDICT"))
+    if not verdicts or verdicts[0]["n"] != len(good):
+        raise vlib.MachineryError("regen-prior validation did not consume the log")
+    for f_ in verdicts[0]["fails"]:
+        ev = good[f_["tid"]]
+        for cl in f_["clauses"]:
+            rep.violation({"clause": f"{prop_id}.{cl}", "pid": ev["pid"], "addr": ev["addr"]}, {"event": ev})
+    rep.extra["regen_prior"] = {"events": len(good), "keys_per_event": n, "hoeffding_bound_counts": bound,
+                                "sample": good[:2]}
+    for ev in good:
+        rep.nontrivial.add(("regen-prior", ev["pid"], json.dumps(ev["args"]), json.dumps(ev["addr"])))
+
+
 def run(prop_id, tier, seed, replay=None):
     rep = vlib.Report(prop_id, tier, seed)
     replay_d = None
@@ -123,6 +223,7 @@ def run(prop_id, tier, seed, replay=None):
     for tid, ev in enumerate(evs):
         ev["tid"] = tid
         ev["bound"] = bound
+        ev["kind"] = "sim"
     path = os.path.join(wd, "events.json")
     vlib.write_json(path, evs)
     with open(os.path.join(wd, "trace.cfg"), "w") as f:
